@@ -75,6 +75,16 @@ SITES = {
    [r"if s\.pv\[0\]\.Len\(\) > 1\s*\{\s*result\.PonderMove = s\.pv\[0\]\.At\(1\)\.MoveOf\(\)", r"ValidateMove\(position, ttEntry\.Move\.MoveOf\(\)\)"], []),
   ("search_position_passed_by_value", "internal/search/search.go", r"func \(s \*Search\) StartSearch\(p position\.Position, sl Limits\)",
    [r"go s\.run\(&p, &sl\)"], []),
+  # iid_ok: the IID re-search of the same node (same ply) runs at depth - IIDReduction (C05_iid_reduction_positive: >= 1)
+  ("iid_reduces_depth", "internal/search/alphabeta.go", r"func \(s \*Search\) search\(",
+   [r"if Settings\.Search\.UseIID\s*\{", r"newDepth := depth - Settings\.Search\.IIDReduction\s*if newDepth < 0 \{\s*newDepth = 0\s*\}\s*s\.search\(p, newDepth, ply, alpha, beta, isPV, true\)",
+    r"myMg\.ResetOnDemand\(\)"],
+   [r"s\.search\(p, depth, ply,"]),
+  # first_cmp: the first root move is compared with ValueNA (C05_value_na_below_every_value) and saved to pv[0]
+  ("root_first_move_beats_na", "internal/search/alphabeta.go", r"func \(s \*Search\) rootSearch\(",
+   [r"bestNodeValue := ValueNA\s*var value Value\s*for i, m := range \*s\.rootMoves\s*\{", r"value = ValueDraw", r"value = -s\.search\(p, depth-1, 1, -beta, -alpha, true, true\)",
+    r"if value > bestNodeValue\s*\{\s*bestNodeValue = value\s*savePV\(m, s\.pv\[1\], s\.pv\[0\]\)"],
+   [r"bestNodeValue = [^v]", r"bestNodeValue [-+*/]="]),
  ],
  # ---------------- C06: what ends a line inside the tree (the game-tree model has exactly these leaves)
  "C06": [
@@ -88,6 +98,11 @@ SITES = {
    [r"if p\.CheckRepetitions\(i\) \|\| p\.HalfMoveClock\(\) >= 100\s*\{\s*return true\s*\}\s*return false"], []),
   ("leaf_is_evaluation_or_quiescence", "internal/search/alphabeta.go", r"func \(s \*Search\) search\(",
    [r"if depth == 0 \|\| ply >= MaxDepth\s*\{\s*return s\.qsearch\(p, ply, alpha, beta, isPV\)"], []),
+  # AlphaBeta.root_rel / root_fn: every iteration searches the root with the full window (ValueMin, ValueMax) =
+  # (-MATE, MATE) (C06_model_constants_dumped); alpha / beta are assigned nowhere else in iterativeDeepening
+  ("root_window_is_full", "internal/search/search.go", r"func \(s \*Search\) iterativeDeepening\(",
+   [r"alpha := ValueMin\s*beta := ValueMax\s*for iterationDepth := 0; iterationDepth < maxDepth;\s*\{", r"s\.rootSearch\(position, iterationDepth, alpha, beta\)"],
+   [r"\b(alpha|beta)\s*[-+*/]?=[^=]", r"\b(alpha|beta),\s*\w+\s*:?=", r"UseAspiration", r"UseMTDf", r"&(alpha|beta)\b"]),
  ],
  # ---------------- C07: terminal classification
  "C07": [
@@ -102,8 +117,39 @@ SITES = {
    [r"if hasCheck\s*\{[^}]*mode = movegen\.GenAll\s*\}\s*else\s*\{\s*mode = movegen\.GenNonQuiet"], []),
   ("root_terminal_reported", "internal/search/search.go", r"func \(s \*Search\) iterativeDeepening\(",
    [r"if s\.rootMoves\.Len\(\) == 0\s*\{\s*if position\.HasCheck\(\)", r"result = &Result\{BestValue: -ValueCheckMate\}", r"result = &Result\{BestValue: ValueDraw\}"], []),
-  ("lmp_threshold_positive", "internal/search/params.go", r"func init\(\) \{\s*for i := 1; i < 16",
-   [r"lmp\[i\] = 6 \+ int\("], []),
+  # (site lmp_threshold_positive on the init loop of params.go was dropped: C07_lmp_threshold_positive computes on
+  #  the thresholds dumped from the running engine, the search reads them through LmpMovesSearched(depth) - first site)
+  # the generator of this ply is reset once, after IID (which uses the same generator) and before the move loop,
+  # and nowhere inside the loop: every move of the position is delivered
+  ("generator_reset_before_loop", "internal/search/alphabeta.go", r"func \(s \*Search\) search\(",
+   [r"s\.search\(p, \w+, ply, alpha, beta, isPV, true\)", r"myMg := s\.mg\[ply\]\s*myMg\.ResetOnDemand\(\)",
+    r"for move := myMg\.GetNextMove\(p, movegen\.GenAll, hasCheck\);\s*move != MoveNone; move = myMg\.GetNextMove\(p, movegen\.GenAll, hasCheck\)\s*\{"],
+   [r"myMg\.ResetOnDemand\(\).*myMg\.ResetOnDemand\(\)", r"myMg\.GetNextMove.*myMg\.ResetOnDemand\(\)", r"myMg = "]),
+  ("qsearch_generator_reset_before_loop", "internal/search/alphabeta.go", r"func \(s \*Search\) qsearch\(",
+   [r"myMg := s\.mg\[ply\]\s*myMg\.ResetOnDemand\(\)",
+    r"for move := myMg\.GetNextMove\(p, mode, hasCheck\);\s*move != MoveNone; move = myMg\.GetNextMove\(p, mode, hasCheck\)\s*\{"],
+   [r"myMg\.ResetOnDemand\(\).*myMg\.ResetOnDemand\(\)", r"myMg\.GetNextMove.*myMg\.ResetOnDemand\(\)", r"myMg = "]),
+  # C07_terminal_sound_engine_thresholds: the move loop runs with 1 <= depth: depth 0 leaves before the loop and
+  # every depth handed to a recursive call is depth-1 (>= 0), depth-1+extension, or clamped at 0
+  ("depth_never_negative", "internal/search/alphabeta.go", r"func \(s \*Search\) search\(",
+   [r"if depth == 0 \|\| ply >= MaxDepth\s*\{\s*return s\.qsearch\(",
+    r"newDepth := depth - r - 1\s*if newDepth < 0 \{\s*newDepth = 0\s*\}", r"-s\.search\(p, newDepth, ply\+1, -beta, -beta\+1, false, false\)",
+    r"newDepth := depth - Settings\.Search\.IIDReduction\s*if newDepth < 0 \{\s*newDepth = 0\s*\}\s*s\.search\(p, newDepth, ply,",
+    r"newDepth := depth - 1\s*lmrDepth := newDepth\s*extension := 0", r"extension = 1", r"newDepth \+= extension",
+    r"lmrDepth -= LmrReduction\(depth, movesSearched\)", r"if lmrDepth < 0 \{\s*lmrDepth = 0\s*\}",
+    r"value = -s\.search\(p, newDepth, ply\+1, -beta, -alpha, true, true\)", r"value = -s\.search\(p, lmrDepth, ply\+1, -alpha-1, -alpha, false, true\)"],
+   [r"\bdepth\s*(--|[-+*/]?=[^=])", r"newDepth\s*(--|-=)", r"extension = (?!1\b)", r"s\.search\(p, (?!newDepth,|lmrDepth,)"]),
+ ],
+ # ---------------- C08: on-demand generation is started from a reset generator (od_start_ok) in both move loops
+ "C08": [
+  ("generator_reset_before_loop", "internal/search/alphabeta.go", r"func \(s \*Search\) search\(",
+   [r"s\.search\(p, \w+, ply, alpha, beta, isPV, true\)", r"myMg := s\.mg\[ply\]\s*myMg\.ResetOnDemand\(\)",
+    r"for move := myMg\.GetNextMove\(p, movegen\.GenAll, hasCheck\);\s*move != MoveNone; move = myMg\.GetNextMove\(p, movegen\.GenAll, hasCheck\)\s*\{"],
+   [r"myMg\.ResetOnDemand\(\).*myMg\.ResetOnDemand\(\)", r"myMg\.GetNextMove.*myMg\.ResetOnDemand\(\)", r"myMg = "]),
+  ("qsearch_generator_reset_before_loop", "internal/search/alphabeta.go", r"func \(s \*Search\) qsearch\(",
+   [r"myMg := s\.mg\[ply\]\s*myMg\.ResetOnDemand\(\)",
+    r"for move := myMg\.GetNextMove\(p, mode, hasCheck\);\s*move != MoveNone; move = myMg\.GetNextMove\(p, mode, hasCheck\)\s*\{"],
+   [r"myMg\.ResetOnDemand\(\).*myMg\.ResetOnDemand\(\)", r"myMg\.GetNextMove.*myMg\.ResetOnDemand\(\)", r"myMg = "]),
  ],
  # ---------------- C14 / C12: lifecycle
  "C14": [
